@@ -18,7 +18,8 @@ EXHAUSTIVE = {'quick': False, 'thorough': False}
 NOTES = ['every shape R x C <= 6x6 (1xN, Nx1, 3x4 and 4x3, primes included), every radius 0..min(R,C) and both '
          'neighbourhood types are swept with all three modes on the same input; grids (sparse / striped / checkerboard / '
          'constant / random over k in {2,3}), rules, step counts, callable timesteps, option spellings and call '
-         'sequences are sampled',
+         'sequences are sampled; 60% of the call sequences pass ONE rule object to all their calls, which differ in '
+         'neighbourhood type and/or radius on the same or a one-cell-changed grid',
          'compared in Coq per call: the returned array (values and shape) of each mode against the model of that mode; '
          'oracle in Python: memoized array == unmemoized array, both from the implementation']
 ASSUMPTIONS = ['rules are pure and read only the unmasked cells (Lin2 of harness/twins.py); memoized modes with rules that '
@@ -161,6 +162,37 @@ def generate(rng, tier):
         k = rng.choice([2, 3])
         style = rng.choice(STYLES)
         g = _grid(rng, R, C, style, k)
+        if i % 5 < 3:
+            # ONE rule object for all the calls of the process (run_impl honours 'share_rule'); consecutive calls differ
+            # in neighbourhood type and/or radius on the same or a slightly changed grid: anything kept per rule
+            # object across calls (stale blocks / table entries computed under another mask or radius) shows up.
+            # A Lin2 with (2*rmax+1)^2 non-uniform weights is pure and legitimate for every r <= rmax.
+            rmax = min(R, C, 2)
+            w = (2 * rmax + 1) ** 2
+            ws = [rng.randint(0, 2) for _ in range(w)]
+            ws[0], ws[1] = 1, 2                      # never uniform: Moore and von Neumann results differ
+            rule = {'fam': 'lin', 'ws': ws, 'm': k}
+            memo = rng.choice(['true', 'rec_lit', 'rec_join', None])      # None: mixed modes
+            calls = []
+            cur_ty, cur_r, cur_g = ty, r, g
+            for j in range(rng.randint(2, 4)):
+                if j > 0:
+                    how = rng.random()
+                    if how < 0.5 or rmax == 0:
+                        cur_ty = 'vn' if cur_ty == 'moore' else 'moore'
+                    elif how < 0.8:
+                        cur_r = rng.choice([x for x in range(rmax + 1) if x != cur_r])
+                    else:
+                        cur_ty = 'vn' if cur_ty == 'moore' else 'moore'
+                        cur_r = rng.randint(0, rmax)
+                    if rng.random() < 0.3:           # similar contents: one cell changed
+                        cur_g = [row[:] for row in cur_g]
+                        a, b = rng.randrange(R), rng.randrange(C)
+                        cur_g[a][b] = (cur_g[a][b] + 1) % k
+                calls.append(_call(R, C, cur_r, cur_ty, [cur_g], rule, memo or rng.choice(MEMOIZED),
+                                   rng.choice([{'fixed': 2}, {'fixed': 3}, {'fixed': 4}, {'lt': 3}])))
+            yield {'kind': 'sequence/shared_rule', 'share_rule': True, 'calls': calls}
+            continue
         calls = []
         for j in range(rng.randint(2, 5)):
             which = rng.random()
@@ -210,22 +242,26 @@ def _grids(out):
     return [[[int(x) for x in row] for row in g] for g in out.tolist()]
 
 
-def _run_one(cpl, c, memo_value):
+def _run_one(cpl, c, memo_value, rule=None):
     ca = np.array(c['hist'], dtype=np.dtype(c['dtype']))
-    rule = Counting(make_rule(c['rule'], dim=2))
+    rule = rule or Counting(make_rule(c['rule'], dim=2))
+    n0 = rule.n
     nb = 'Moore' if c['ty'] == 'moore' else 'von Neumann'
     res = call_impl(lambda: cpl.evolve2d(ca, timesteps=_timesteps(c['ts']), apply_rule=rule, r=c['r'],
                                          neighbourhood=nb, memoize=memo_value))
     if res[0] != 'ok':
-        return list(res), rule.n
-    return ['ok', _grids(res[1])], rule.n
+        return list(res), rule.n - n0
+    return ['ok', _grids(res[1])], rule.n - n0
 
 
 def run_impl(case):
     import cellpylib as cpl
     obs = []
+    # 'share_rule': the very same callable object is passed to every call of the process (as a user who defines
+    # one rule and evolves several automata with it does); the reference runs below use fresh objects
+    shared = Counting(make_rule(case['calls'][0]['rule'], dim=2)) if case.get('share_rule') else None
     for c in case['calls']:
-        res, n = _run_one(cpl, c, OPTIONS[c['memo']][0]())
+        res, n = _run_one(cpl, c, OPTIONS[c['memo']][0](), shared)
         o = {'res': res, 'entries': n}
         if c['memo'] in MEMOIZED:
             ref, nref = _run_one(cpl, c, False)          # the property's reference: the unmemoized evolution
@@ -307,5 +343,5 @@ def shrink(case):
             yield sub(ts={'fixed': c['ts']['fixed'] - 1})
         if c['dtype'] != 'int64':
             yield sub(dtype='int64')
-        if any(w != 1 for w in c['rule']['ws']):
+        if any(w != 1 for w in c['rule']['ws']) and not case.get('share_rule'):
             yield sub(rule=dict(c['rule'], ws=[1] * len(c['rule']['ws'])))
